@@ -1199,6 +1199,26 @@ func (w *world) scripted(prop string, sc int, rng *mrand.Rand) {
 			w.refreshTransition(sc/7, rng)
 			return
 		}
+		if sc%7 == 3 {
+			// the provider answers a refresh with an ID token that is already past its exp but still inside the tolerance (accepted), and
+			// answers the next refresh - the tolerance now over - with the very same token: that one is refused
+			o := w.randomTokOpts(rng, true)
+			o.expIn, o.blob, o.jti = 10*time.Minute, 0, false
+			if w.fullLogin("/start", o, "rt-same", rng).ok {
+				tok := w.loginTok[w.b]
+				w.wait(time.Duration(tok.exp-time.Now().Unix()+30) * time.Second)
+				oe := w.randomTokOpts(rng, true)
+				d := 40 + rng.Intn(40) // seconds past its exp when first presented: the tolerance (120 s) ends 120-d seconds later
+				oe.expIn, oe.blob, oe.jti, oe.nbf = -time.Duration(d)*time.Second, 0, false, false
+				late := w.mintWith(oe, rng)
+				w.plain("/r1", reqSpec{refresh: &tokenAnswer{kind: "ok", idToken: late.raw, refresh: "rt-same"}, note: "refresh answered with a token just past its exp (inside the tolerance)"}, rng)
+				w.wait(time.Duration(120-d+3+rng.Intn(d-10)) * time.Second) // (just after the tolerance has ended)
+				w.plain("/r2", reqSpec{refresh: &tokenAnswer{kind: "ok", idToken: late.raw, refresh: "rt-same"}, note: "the next refresh answered with the same token, now beyond the tolerance"}, rng)
+				w.plain("/r3", reqSpec{refresh: &tokenAnswer{kind: "ok", idToken: late.raw, refresh: "rt-same"}, accept: "application/json", note: "and once more, for a JSON client"}, rng)
+				T.stat("handler.refresh.same-expired-token-twice")
+			}
+			return
+		}
 		if sc%3 == 1 {
 			w.refreshSweep(sc/3, rng, []string{"", "application/json"}[sc%2])
 			w.plain("/data3", reqSpec{accept: "application/json", note: "JSON client after the refresh attempt"}, rng)
